@@ -25,7 +25,15 @@ def _write_if_changed(path, text):
 GENERATORS = []   # list of callables returning (relative file name, text)
 
 
+def _register():
+    from harness.srcgen import c12_digits
+    GENERATORS.append(c12_digits.generate)
+
+
+
 def regenerate():
+    if not GENERATORS:
+        _register()
     changed = []
     for g in GENERATORS:
         name, text = g()
